@@ -6,13 +6,14 @@ p = props[pid]
 d = "/tmp/mut_" + pid
 import glob, os
 avoid = []
-for m in sorted(glob.glob('/verif/seeded/%s-m*/meta.json' % pid)):
+wave = sys.argv[2] if len(sys.argv) > 2 else ""
+for m in sorted(glob.glob('/verif/seeded/%s-%s/meta.json' % (pid, "*m*" if wave == "wave3" else "m*"))):
     try:
         avoid.append("- " + json.load(open(m)).get("summary", "")[:300].replace("\n", " "))
     except Exception:
         pass
 avoid_text = ""
-if avoid and len(sys.argv) > 2 and sys.argv[2] == "wave2":
+if avoid and wave in ("wave2", "wave3"):
     avoid_text = "\n\nOther people have already produced the following mutants for this property; yours must be DIFFERENT (other code sites, other mechanisms, other inputs needed to manifest):\n" + "\n".join(avoid) + "\n"
 print(f"""You are working ONLY inside the scratch git worktree {d} — a checkout of the Rust proc-macro crate frozenlib/derive-ex (crate sources in {d}/derive-ex/src, its test-suite in {d}/derive-ex-tests/tests, user documentation in {d}/doc/derive_ex.md). Do not read or write anything outside {d} (in particular never look at /verif, /repo or anything under /root/.claude). The machine is offline: always pass --offline to cargo.
 
